@@ -351,33 +351,97 @@ Lemma inventory_closed_lemma : inventory_closed_b = true.
 Proof. vm_compute; reflexivity. Qed.
 
 (* ------------------------------------------------------------------ stored vs. handle configuration *)
+Definition cstep := config_step config_set_before_save config_restricts_on_failure config_cold_before_hot.
+
+(* every fault, both directions: the invariant `stored append-only => handle append-only` is kept *)
+Lemma handle_never_less_restrictive_lemma : forall f new_ao s,
+  handle_covers_store s -> handle_covers_store (cstep f new_ao s).
+Proof.
+  unfold handle_covers_store, cstep. intros f new_ao [c h m] H.
+  destruct f, new_ao, c, h, m; vm_compute in *; auto.
+Qed.
+
 Lemma failed_enable_handle_tracks_store_lemma : forall f s,
-  let s' := config_step config_set_before_save config_cold_before_hot f true s in
-  c_cold s' = true -> c_handle s' = true.
+  let s' := cstep f true s in c_cold s' = true -> c_handle s' = true.
 Proof. intros f s; destruct f, s as [c h m]; destruct c, h, m; vm_compute; auto. Qed.
 
-Lemma failed_enable_still_refuses_lemma : forall f s e v pl g,
-  let s' := config_step config_set_before_save config_cold_before_hot f true s in
+Lemma stored_append_only_still_refused_lemma : forall f new_ao s e v pl g,
+  handle_covers_store s ->
+  let s' := cstep f new_ao s in
   c_cold s' = true -> is_hotcold e = false ->
   f_guard (entry_facts e) = Some g -> forallb (holds v) g = true ->
   run_entry (entry_facts e) (c_handle s') v pl = (Refused, []).
 Proof.
-  intros f s e v pl g s' Hc Hh Hg Hv. subst s'.
-  rewrite (failed_enable_handle_tracks_store_lemma f s Hc).
+  intros f new_ao s e v pl g Hs s' Hc Hh Hg Hv. subst s'.
+  rewrite (handle_never_less_restrictive_lemma f new_ao s Hs Hc).
   destruct (run_entry (entry_facts e) true v pl) as [r effs] eqn:Hr.
   destruct (run_entry_refusal _ _ _ _ _ _ (all_dominated e Hh) Hr) as [[_ H1] H2].
   assert (r = Refused) by (apply H1; exists g; split; [assumption | unfold guard_fires; now rewrite Hv]).
   subst. now rewrite (H2 eq_refl).
 Qed.
 
-(* the full-strength statement (any direction of the change) does not hold for the code as it is:
-   disabling append-only, first write fails -> the store still says append-only, the handle does not *)
-Lemma failed_disable_unlocks_handle_refuted_lemma :
-  config_set_before_save = true ->
+(* the shape before the repair (set_config first, a failed save leaves the handle as it is) does
+   not keep the invariant: disabling append-only, first write fails *)
+Lemma old_shape_unlocks_handle_refuted_lemma :
   exists f s, c_handle s = c_cold s /\ c_hot s = c_cold s /\
-    let s' := config_step config_set_before_save config_cold_before_hot f false s in
+    let s' := config_step true false config_cold_before_hot f false s in
     c_cold s' = true /\ c_handle s' = false.
-Proof. intros H; rewrite H. exists FailFirst, (mk_cfg true true true). vm_compute; auto. Qed.
+Proof. exists FailFirst, (mk_cfg true true true). vm_compute; auto. Qed.
+
+(* the invariant needs its premise: a handle opened from a stale hot copy is not covered *)
+Example ex_config_step :
+  cstep FailSecond true (mk_cfg false false false) = mk_cfg true false true /\
+  cstep FailFirst false (mk_cfg true true true) = mk_cfg true true true /\
+  cstep NoFault false (mk_cfg true true true) = mk_cfg false false false /\
+  cstep SecondStoredButErr false (mk_cfg true true true) = mk_cfg false false true.
+Proof. repeat split; reflexivity. Qed.
+
+(* ------------------------------------------------------------------ the Indexer *)
+Lemma ix_run_only_finalize : forall maxc evs,
+  forallb is_finalize evs = true ->
+  ix_run indexer_save_needs_packs maxc (mk_ix 0 0) evs = 0%N.
+Proof.
+  induction evs as [|e r IH]; intros H; [reflexivity|].
+  cbn [forallb] in H. apply andb_true_iff in H as [He Hr].
+  destruct e; [discriminate|]. cbn [ix_run ix_step]. rewrite (IH Hr). reflexivity.
+Qed.
+
+Lemma indexer_silent_without_add_lemma : forall evs,
+  forallb is_finalize evs = true ->
+  ix_run indexer_save_needs_packs indexer_max_count (mk_ix 0 0) evs = 0%N.
+Proof. intros; now apply ix_run_only_finalize. Qed.
+
+Lemma ix_events_dry : forall v ss pl, v F_dry_run = true ->
+  forallb (fun s => cond_mem dry_cond (s_conds s)) ss = true -> ix_events v ss pl = [].
+Proof.
+  induction ss as [|s r IH]; intros pl Hv Hs; [reflexivity|].
+  cbn [forallb] in Hs. apply andb_true_iff in Hs as [H1 H2].
+  cbn [ix_events]. rewrite (dry_site_silent v s Hv H1), andb_false_r, (IH (tl pl) Hv H2). reflexivity.
+Qed.
+
+Lemma forallb_repeat_finalize : forall k, forallb is_finalize (repeat IxFinalize k) = true.
+Proof. induction k; [reflexivity | cbn; assumption]. Qed.
+
+Lemma dry_run_indexer_silent_lemma : forall e v pl k,
+  has_dry e = true -> v F_dry_run = true ->
+  ix_run indexer_save_needs_packs indexer_max_count (mk_ix 0 0)
+    (ix_events v (f_pre (entry_facts e) ++ f_post (entry_facts e)) pl ++ repeat IxFinalize k) = 0%N.
+Proof.
+  intros e v pl k Hd Hv. pose proof (all_dry_complete e Hd) as Hc. unfold dry_complete in Hc.
+  rewrite (ix_events_dry v _ pl Hv Hc). cbn [app].
+  apply indexer_silent_without_add_lemma, forallb_repeat_finalize.
+Qed.
+
+(* the self-save of add_with: 60 000 blobs in packs of 7 000 -> one file when the count reaches
+   MAX_COUNT, one at finalize; a second finalize re-saves the pending file; no add, no file *)
+Example ex_indexer :
+  indexer_max_count = 50000%N -> indexer_save_needs_packs = true ->
+  ix_run indexer_save_needs_packs indexer_max_count (mk_ix 0 0)
+    (map (fun b => IxAdd b false) [7000; 7000; 7000; 7000; 7000; 7000; 7000; 7000; 4000]%N ++ [IxFinalize]) = 2%N /\
+  ix_run indexer_save_needs_packs indexer_max_count (mk_ix 0 0) [IxAdd 60000 false; IxFinalize] = 1%N /\
+  ix_run indexer_save_needs_packs indexer_max_count (mk_ix 0 0) [IxAdd 5 true; IxAdd 5 false; IxFinalize; IxFinalize] = 3%N /\
+  ix_run false 50000 (mk_ix 0 0) [IxFinalize] = 1%N.
+Proof. intros -> ->. repeat split; vm_compute; reflexivity. Qed.
 
 (* ------------------------------------------------------------------ examples (non-vacuity) *)
 Definition ex_hash (d : N) : id := (1000 + d)%N.
